@@ -80,6 +80,7 @@ type Exec struct {
 	stmtHits   map[int]int
 	boxed      map[types.Object]bool
 	orderOnly  bool
+	loopHead   *State
 }
 
 type emitSite struct {
@@ -143,10 +144,10 @@ func (x *Exec) stmtAsserts(kind string, s ast.Stmt, st *State) {
 			txt = strings.Join(strings.Fields(exprStr(s)), " ")
 		}
 		t := strings.TrimSpace(cl.Text)
-		if !strings.HasPrefix(t, "\"") {
+		if !strings.HasPrefix(t, "\"") && !strings.HasPrefix(t, "`") {
 			panic(evalError{fmt.Sprintf("%s:%d: BINDING: %s needs a quoted statement fragment", cl.File, cl.Line, kind)})
 		}
-		end := strings.Index(t[1:], "\"")
+		end := strings.Index(t[1:], t[:1])
 		frag := t[1 : 1+end]
 		if !strings.HasPrefix(txt, frag) {
 			continue
@@ -819,6 +820,18 @@ func (x *Exec) runLoop(ls *loopSpec, st *State) flow {
 		}
 		out.absorb(f)
 		if b := x.mergeAll(backs); b != nil {
+			if fr.top {
+				// "loop N: end_of_body E": holds whenever an iteration completes (checked at the back edge, never assumed);
+				// at_head(e) is e in the state at the head of this iteration
+				x.st = b
+				savedHead := x.loopHead
+				x.loopHead = headSnap
+				for k, cl := range x.loopClauses(ls.ord, "end_of_body") {
+					g := x.spec(x.specEnvAt(ls.node.End()-1), x.parseClause(cl))
+					x.addObl("end_of_body", fmt.Sprintf("body%d.end#%d", ls.ord, k), ls.node.Pos(), g, cl.Text, cl.Props, "")
+				}
+				x.loopHead = savedHead
+			}
 			if ls.post != nil {
 				b = ls.post(b)
 			}
